@@ -13,6 +13,7 @@ package main
 import (
 	"fmt"
 	"go/ast"
+	"go/token"
 	"go/types"
 	"sort"
 	"strings"
@@ -44,8 +45,11 @@ func isUnorderedSource(f *types.Func) bool {
 func sortedAfter(fn *FuncInfo, o types.Object) bool {
 	info := fn.Info()
 	found := false
+	if fn.Decl.Body == nil {
+		return false
+	}
 	ast.Inspect(fn.Decl.Body, func(n ast.Node) bool {
-		if isSortCallOn(info, n, o) {
+		if n != nil && isSortCallOn(info, n, o) {
 			found = true
 		}
 		return !found
@@ -102,6 +106,11 @@ func (w *orderWalk) expr(fn *FuncInfo, x ast.Expr, depth int, trail string) {
 				w.found["slice "+v.Name()+" appended in map order at "+w.p.Pos(app)+trail] = true
 			}
 		}
+		// filled while ranging over a map in a loop that can stop early: WHICH entries make it
+		// depends on the iteration order
+		if at := filledInCutMapLoop(fn, v); at != nil {
+			w.found[v.Name()+" is filled in a range over a map that can break early at "+w.p.Pos(at)+trail] = true
+		}
 	case *ast.SelectorExpr:
 		if fv, _ := info.ObjectOf(t.Sel).(*types.Var); fv != nil && fv.IsField() {
 			w.field(fv, depth+1, trail+" ← ."+fv.Name())
@@ -137,7 +146,8 @@ func (w *orderWalk) expr(fn *FuncInfo, x ast.Expr, depth int, trail string) {
 					continue
 				}
 				for i, rx := range r.Results {
-					if _, isSlice := sig.Results().At(i).Type().Underlying().(*types.Slice); isSlice {
+					switch sig.Results().At(i).Type().Underlying().(type) {
+					case *types.Slice, *types.Map:
 						w.expr(cf, rx, depth+1, trail+" ← result of "+cf.Name)
 					}
 				}
@@ -183,7 +193,8 @@ func c16R6(c *Ctx) {
 		ast.Inspect(b.Decl.Body, func(k ast.Node) bool {
 			if sel, ok := k.(*ast.SelectorExpr); ok {
 				if fv, _ := info.ObjectOf(sel.Sel).(*types.Var); fv != nil && fv.IsField() && fv.Pkg() != nil && strings.HasPrefix(fv.Pkg().Path(), modPath) {
-					if _, isSlice := fv.Type().Underlying().(*types.Slice); isSlice {
+					switch fv.Type().Underlying().(type) {
+					case *types.Slice, *types.Map:
 						fields[fv] = true
 					}
 				}
@@ -208,4 +219,69 @@ func c16R6(c *Ctx) {
 		}
 	}
 	c.Floor("C16.R6", "slice-typed builder inputs", 2, n)
+}
+
+// filledInCutMapLoop: v is stored into (v[k] = …, v = append(v, …)) inside a range over a map
+// whose body contains a break (or return) — the first such loop, or nil.
+func filledInCutMapLoop(fn *FuncInfo, v types.Object) ast.Node {
+	info := fn.Info()
+	var hit ast.Node
+	if fn.Decl.Body == nil {
+		return nil
+	}
+	ast.Inspect(fn.Decl.Body, func(n ast.Node) bool {
+		rs, ok := n.(*ast.RangeStmt)
+		if !ok || hit != nil {
+			return true
+		}
+		if _, isMap := info.TypeOf(rs.X).Underlying().(*types.Map); !isMap {
+			return true
+		}
+		fills, cuts := false, false
+		ast.Inspect(rs.Body, func(k ast.Node) bool {
+			switch t := k.(type) {
+			case *ast.FuncLit:
+				return false
+			case *ast.RangeStmt, *ast.ForStmt, *ast.SwitchStmt, *ast.SelectStmt:
+				if k != ast.Node(rs.Body) {
+					// a break inside an inner loop / switch leaves that one; stores still count
+					ast.Inspect(k, func(j ast.Node) bool {
+						if as, ok := j.(*ast.AssignStmt); ok {
+							for _, l := range as.Lhs {
+								if ix, ok := ast.Unparen(l).(*ast.IndexExpr); ok && identObj(info, ix.X) == v {
+									fills = true
+								}
+								if identObj(info, l) == v {
+									fills = true
+								}
+							}
+						}
+						return true
+					})
+					return false
+				}
+			case *ast.AssignStmt:
+				for _, l := range t.Lhs {
+					if ix, ok := ast.Unparen(l).(*ast.IndexExpr); ok && identObj(info, ix.X) == v {
+						fills = true
+					}
+					if identObj(info, l) == v {
+						fills = true
+					}
+				}
+			case *ast.BranchStmt:
+				if t.Tok == token.BREAK && t.Label == nil {
+					cuts = true
+				}
+			case *ast.ReturnStmt:
+				cuts = true
+			}
+			return true
+		})
+		if fills && cuts {
+			hit = rs
+		}
+		return true
+	})
+	return hit
 }
